@@ -20,8 +20,8 @@ import time
 import z3
 
 sys.path.insert(0, os.path.dirname(os.path.abspath(__file__)))
-import mirsym  # noqa: E402
-from mirsym import BV, Bool, Cell, Enum, Ref, Str, Tup, VecV, Opaque  # noqa: E402
+import mirx as mirsym  # noqa: E402
+from mirx import BV, Bool, Enum, Ref, Str, Tup, VecV, Opaque  # noqa: E402
 
 ROOT = mirsym.ROOT
 OPS = [("+", "add"), ("-", "sub"), ("*", "mul"), ("/", "div"), ("%", "mod"), ("<=", "le"), (">=", "ge"), ("<", "lt"), (">", "gt"),
@@ -32,12 +32,13 @@ K_NULL, K_INT, K_BOOL, K_REF = 0, 1, 2, 3
 MIN = z3.BitVecVal(-2 ** 31, 32)
 
 
-def sym_pointer(i):
+def sym_pointer(ex, store, i):
     k = z3.Int("k%d" % i)
     ai = z3.BitVec("ai%d" % i, 32)
     ab = z3.Bool("ab%d" % i)
     ar = z3.BitVec("ar%d" % i, 64)
-    e = Enum("Pointer", k, {K_INT: [Cell(BV(ai, 32, True))], K_BOOL: [Cell(Bool(ab))], K_REF: [Cell(Tup([Cell(BV(ar, 64, False))]))]})
+    new = lambda v: ex.world.new(store, v)
+    e = Enum("Pointer", k, {K_INT: [new(BV(ai, 32, True))], K_BOOL: [new(Bool(ab))], K_REF: [new(Tup([new(BV(ar, 64, False))], "HeapIndex"))]})
     return e, (k, ai, ab, ar), [k >= 0, k <= 3]
 
 
@@ -85,25 +86,31 @@ def agreement(outcome, rows, nargs):
     if outcome.kind == "unreachable":
         return z3.BoolVal(False), "unreachable code reached"
     v = outcome.value
+    st = outcome.store
     if not isinstance(v, Enum) or v.adt != "Result" or not isinstance(v.disc, int):
         return None, "return value not understood"
     if v.disc == 1:
         return z3.Or(z3.Not(defined), dont_care), "Err"
-    p = v.payload[0][0].v
+    p = st[v.payload[0][0]]
     if not isinstance(p, Enum) or not isinstance(p.disc, int):
         return None, "Ok payload not understood"
+    if nargs != 1:
+        return z3.BoolVal(False), "Ok(kind %d)" % p.disc
     conj = []
     for (cond, dfn, kind, ival, bval, dc) in rows:
+        same = z3.BoolVal(False)
         if p.disc == kind == K_INT:
-            got = p.payload[K_INT][0].v
+            got = st[p.payload[K_INT][0]]
+            if not isinstance(got, BV):
+                return None, "integer result is an opaque value (a callee outside the executor's models produced it)"
             same = got.t == ival
         elif p.disc == kind == K_BOOL:
-            got = p.payload[K_BOOL][0].v
+            got = st[p.payload[K_BOOL][0]]
+            if not isinstance(got, Bool):
+                return None, "boolean result is an opaque value (a callee outside the executor's models produced it)"
             same = got.t == bval
-        else:
-            same = z3.BoolVal(False)
         conj.append(z3.Implies(cond, z3.Or(dc, z3.And(dfn, same))))
-    return z3.And(defined if nargs == 1 else z3.BoolVal(False), *conj) if nargs == 1 else z3.BoolVal(False), "Ok(kind %d)" % p.disc
+    return z3.And(any_row, *conj), "Ok(kind %d)" % p.disc
 
 
 def concrete_spec(recv, name, args):
@@ -215,7 +222,8 @@ def main():
     max_args = 3
     text = mirsym.dump_mir()
     bodies = mirsym.parse_mir(text)
-    enums = mirsym.parse_enums(["/repo/src/bytecode/heap.rs", "/repo/src/bytecode/program.rs", "/repo/src/bytecode/bytecode.rs", "/repo/src/parser/mod.rs"])
+    enums, structs = mirsym.parse_adts(["/repo/src/bytecode/heap.rs", "/repo/src/bytecode/program.rs", "/repo/src/bytecode/bytecode.rs",
+                                        "/repo/src/bytecode/state.rs", "/repo/src/parser/mod.rs"])
     result = {"name": "c09_dispatch_mir", "queries": 0, "discharged": 0, "nontrivial": 0, "violations": [], "inconclusive": [],
               "samples": [], "functions": [], "paths": 0, "solver_s": 0.0}
     targets = [("dispatch_null_method", K_NULL), ("dispatch_integer_method", K_INT), ("dispatch_boolean_method", K_BOOL)]
@@ -226,26 +234,27 @@ def main():
             result["inconclusive"].append("function %s not found in the MIR dump" % fname)
             continue
         for nargs in range(0, max_args + 1):
-            ex = mirsym.Executor(bodies, enums)
+            ex = mirsym.Executor(bodies, enums, structs)
+            store = {}
             args_cells, arg_vars, constraints = [], [], []
             for i in range(nargs):
-                e, vars_, cs = sym_pointer(i)
-                args_cells.append(Cell(e))
+                e, vars_, cs = sym_pointer(ex, store, i)
+                args_cells.append(ex.world.new(store, e))
                 arg_vars.append(vars_)
                 constraints += cs
             vec = VecV(args_cells)
             if rk == K_INT:
                 a = z3.BitVec("a", 32)
-                call_args = [Ref(Cell(BV(a, 32, True))), Str(name), vec]
+                call_args = [Ref(ex.world.new(store, BV(a, 32, True))), Str(name), vec]
             elif rk == K_BOOL:
                 a = z3.Bool("a")
-                call_args = [Ref(Cell(Bool(a))), Str(name), vec]
+                call_args = [Ref(ex.world.new(store, Bool(a))), Str(name), vec]
             else:
                 a = None
                 call_args = [Str(name), vec]
             try:
-                outcomes = list(ex.run(body, call_args, constraints))
-            except mirsym.Unsupported as e:
+                outcomes = list(ex.run(body, call_args, constraints, store))
+            except (mirsym.Unsupported, AttributeError, KeyError, TypeError, IndexError) as e:
                 result["inconclusive"].append("%s/%d args: MIR construct outside the executor: %s" % (fname, nargs, e))
                 continue
             rows = spec(rk, a, name, arg_vars[0]) if nargs >= 1 else spec(rk, a, name, (z3.Int("k_none"), z3.BitVec("x", 32), z3.Bool("y"), None))
